@@ -183,6 +183,12 @@ def run_shift(payload):
         exp.append(shift_expected(base, k))
     # ... and the line itself is the line of the code that raised the error (the marked line), wherever that code sits:
     # at program level, in a function, in a callback run by a built-in, in an accessor
+    # multi-line constructs in front of the program (tokens the parser looks ahead over, comments, continued strings) move
+    # the reported line by exactly the number of line breaks they contain
+    for pre in PRELUDES:
+        k = pre.count("\n")
+        obs.append(e.run_program(pre + G.strip(src), tl=tl))
+        exp.append(_LOC.sub(lambda m: '[s"L",%s,%s]' % (_add(m.group(1), k), m.group(2)), base))
     m = _LOC.search(base)
     want = src[:src.index(G.MARK)].count("\n") + 1
     got = "none"
@@ -194,6 +200,15 @@ def run_shift(payload):
     return " ## ".join(obs) + "\x00" + " ## ".join(exp)
 
 
+PRELUDES = [
+    "var pre0 = (1 +\n 2);\n",
+    "var pre1 = (pa,\n pb\n) => pa;\n",
+    "var pre2 = ((1,\n 2),\n (3));\n",
+    "var pre3 = [1,\n 2]; var pre4 = {a: 1,\n b: (2\n)};\n",
+    "/* multi\n line\n comment */ var pre5 = 'a\\\nb'; // tail\n",
+    "function pre6(a,\n b) {\n return (a\n + b)\n}\npre6(1,\n 2);\n",
+    "var pre7 = (function () {\n return (1) })(\n);\nif ((pre7 ===\n 1)) {\n}\n",
+]
 SHIFT_PL = ["inline", "same", "caller", "native_forEach"]
 SHIFT_CTX = ["stmt", "add_r"]
 
@@ -218,7 +233,7 @@ def shift_space():
                  rule="programs of family A that catch an error object and log e.lineNumber/e.columnNumber, run "
                       "unshifted and shifted by k in {1, 7} leading newlines plus k leading spaces on the throwing "
                       "line; expected = unshifted outcome with line and column increased by k, and the reported line is the marked "
-                      "line (the line of the code that raised the error). Non-trivial = the unshifted run reports a numeric line", bound="error sites x 4 placements x 2 contexts x k in {1,7}",
+                      "line (the line of the code that raised the error); also behind 7 multi-line preludes (parenthesised expressions, arrow parameter lists, literals, comments, continued strings, calls) which move the line by their line-break count. Non-trivial = the unshifted run reports a numeric line", bound="error sites x 4 placements x 2 contexts x k in {1,7}",
                  batch=50)
 
 
@@ -360,8 +375,167 @@ def d_space():
                  bound="7 x 6 x 8 x 3 x 2")
 
 
+# ------------------------------------------------------------------------------------------------ family F
+# two built-ins on the stack at once, with the handler between them, outside both or inside the inner one; the outer built-in
+# goes on with its next element after the error was handled
+
+NEST = {   # name -> template with BODY (run once per element / call); every one of them calls back into script
+    "forEach": "[1, 2].forEach(function (v) { BODY })",
+    "map": "[1, 2].map(function (v) { BODY return v })",
+    "filter": "[1, 2].filter(function (v) { BODY return true })",
+    "reduce": "[1, 2].reduce(function (a, v) { BODY return a + v }, 0)",
+    "some": "[1, 2].some(function (v) { BODY return false })",
+    "sort": "[2, 1].sort(function (a, b) { BODY return a - b })",
+    "replace": '"ab".replace(/[ab]/g, function (m0) { BODY return m0 })',
+    "toString": "String({toString: function () { BODY return 's' }})",
+    "valueOf": "+{valueOf: function () { BODY return 1 }}",
+    "toJSON": "JSON.stringify([{toJSON: function () { BODY return 1 }}, {toJSON: function () { BODY return 2 }}])",
+    "getter": "({get p() { BODY return 1 }}).p",
+    "call": "(function () { BODY }).call(null)",
+    "apply": "(function () { BODY }).apply(null, [])",
+    "new": "new (function () { BODY })()",
+    "join": "[{toString: function () { BODY return 'j' }}, 1].join()",
+}
+THROWS = [("value", "throw 'boom';"), ("error", "throw new RangeError('r');"), ("runtime", "null.x;"), ("none", "")]
+HANDLER_AT = ["between", "outside", "inner", "between-finally", "between-rethrow"]
+
+
+def nested_src(outer, inner, thrower, where):
+    tb = "__out('i'); " + thrower
+    if where == "inner":
+        tb = "try { " + tb + " } catch (e) { __out(['in', typeof e === 'object' ? e.name : e]); }"
+    inner_call = NEST[inner].replace("BODY", tb)
+    if where == "between":
+        mid = "try { %s; __out('after-inner'); } catch (e) { __out(['mid', typeof e === 'object' ? e.name : e]); }" % inner_call
+    elif where == "between-finally":
+        mid = "try { try { %s; } finally { __out('fin'); } } catch (e) { __out(['mid', typeof e === 'object' ? e.name : e]); }" % inner_call
+    elif where == "between-rethrow":
+        mid = "try { %s; } catch (e) { __out('re'); throw e; }" % inner_call
+    else:
+        mid = inner_call + "; __out('after-inner');"
+    outer_call = NEST[outer].replace("BODY", "__out('o'); " + mid + " __out('o-end');")
+    return ("var r; try { r = %s; __out('done'); } catch (e) { __out(['out', typeof e === 'object' ? e.name : e]); } "
+            "try { [1].forEach(function () { throw 'p' }) } catch (e) { __out(['probe', e]); } "
+            "try { [3].map(function () { try { [4].forEach(function () { throw 'q' }) } catch (e) { __out(['probe2', e]); } }) } catch (e) { __out(['leak', e]); } "
+            "typeof r" % outer_call)
+
+
+def nested_cases():
+    out = []
+    for o in NEST:
+        for i in NEST:
+            for tn, t in THROWS:
+                for w in HANDLER_AT:
+                    if tn == "none" and w not in ("between", "outside"):
+                        continue
+                    out.append(("F|outer=%s|inner=%s|throw=%s|handler=%s" % (o, i, tn, w), {"src": nested_src(o, i, t, w), "tl": 50}))
+    return out
+
+
+DEPTH_NATIVES = {
+    "forEach": "[1].forEach(function () { rec(n + 1) })",
+    "map": "[1].map(function () { return rec(n + 1) })",
+    "sort": "[2, 1].sort(function () { rec(n + 1); return 0 })",
+    "replace": "'a'.replace(/a/, function () { rec(n + 1); return '' })",
+    "toString": "String({toString: function () { rec(n + 1); return '' }})",
+    "getter+forEach": "({get p() { [1].forEach(function () { rec(n + 1) }); return 1 }}).p",
+    "call": "rec.call(null, n + 1)",
+    "eval": "eval('rec(' + (n + 1) + ')')",
+}
+
+
+def depth_cases():
+    """unbounded recursion through a built-in, stopped by the engine's own limit; the RangeError is caught at nesting level 0, 1
+    or 2 of built-ins; afterwards exceptions must still be routed to the right handlers"""
+    out = []
+    for name, call in DEPTH_NATIVES.items():
+        for level in (0, 1, 2):
+            for repeat in (1, 3):
+                guarded = "try { rec(0) } catch (e) { __out(['caught', e instanceof RangeError]); }"
+                for _ in range(level):
+                    guarded = "[1, 2].forEach(function (v) { __out(['lv', v]); %s; try { [1].map(function () { throw 'm' }) } catch (e) { __out(['m', e]); } })" % guarded
+                src = ("function rec(n) { %s } for (var k = 0; k < %d; k++) { %s } "
+                       "try { [1].forEach(function () { throw 'p' }) } catch (e) { __out(['probe', e]); } "
+                       "try { [3].map(function () { try { [4].forEach(function () { throw 'q' }) } catch (e) { __out(['probe2', e]); } __out('cont'); }) } catch (e) { __out(['leak', e]); } "
+                       "try { [5].forEach(function () { [6].forEach(function () { throw 'z' }) }); } catch (e) { __out(['probe3', e]); } 'end'"
+                       % (call, repeat, guarded))
+                out.append(("G|native=%s|catch-level=%d|repeat=%d" % (name, level, repeat), {"src": src, "tl": 5000}))
+    return out
+
+
+LOOPS_H = {
+    "for-of": ("for (var x of [1, 2, 3]) { __out(['it', x]); BODY __out('body-end'); }", True),
+    "for-in": ("for (var x in {a: 1, b: 2, c: 3}) { __out(['it', x]); BODY __out('body-end'); }", True),
+    "for": ("for (var x = 0; x < 3; x++) { __out(['it', x]); BODY __out('body-end'); }", True),
+    "while": ("var x = 0; while (x++ < 3) { __out(['it', x]); BODY __out('body-end'); }", True),
+    "do-while": ("var x = 0; do { __out(['it', x]); BODY __out('body-end'); } while (++x < 3);", True),
+    "switch": ("switch (2) { case 1: __out('c1'); case 2: __out('c2'); BODY __out('body-end'); case 3: __out('c3'); }", False),
+    "labelled-block": ("LB: { __out('blk'); BODY __out('body-end'); }", False),
+    "for-of in for-of": ("for (var w of [10, 20]) { __out(['outer-it', w]); for (var x of [1, 2]) { __out(['it', x]); BODY __out('body-end'); } __out('outer-body-end'); }", True),
+    "switch in for-of": ("for (var w of [10, 20]) { __out(['outer-it', w]); switch (1) { case 1: BODY __out('body-end'); } __out('outer-body-end'); }", False),
+}
+PENDING = {    # what is in flight when the finally block runs
+    "exception": "try { __out('t'); throw 'pend'; } finally { __out('f'); EXIT }",
+    "exception-in-catch": "try { throw 'first'; } catch (e1) { try { __out('t'); throw 'pend'; } finally { __out('f'); EXIT } }",
+    "runtime-error": "try { __out('t'); null.x; } finally { __out('f'); EXIT }",
+    "exception-from-native": "try { [1].forEach(function () { throw 'pend' }); } finally { __out('f'); EXIT }",
+    "return-value": None,      # only inside a function
+    "normal": "try { __out('t'); } finally { __out('f'); EXIT }",
+    "nested-finally": "try { try { throw 'pend'; } finally { __out('f1'); } } finally { __out('f2'); EXIT }",
+    "exception, exit in inner loop": "try { throw 'pend'; } finally { for (var z of [1, 2]) { __out(['z', z]); break; } EXIT }",
+}
+WRAP = {
+    "program": "%s",
+    "function": "(function () { %s return 'fn-end' })()",
+    "callback": "[1, 2].forEach(function (cbv) { __out(['cb', cbv]); %s })",
+    "outer-try": "try { %s __out('after'); } finally { __out('outer-fin'); }",
+    "outer-catch": "try { %s __out('after'); } catch (eo) { __out(['outer-catch', eo]); } finally { __out('outer-fin'); }",
+}
+
+
+def finally_exit_cases():
+    out = []
+    for ln, (loop, is_loop) in LOOPS_H.items():
+        exits = ["break;"] + (["continue;"] if is_loop else [])
+        if ln == "labelled-block":
+            exits = ["break LB;"]
+        if ln == "for-of in for-of":
+            exits = ["break;", "continue;"]
+        for pn, pend in PENDING.items():
+            if pend is None:
+                continue
+            for ex in exits:
+                body = pend.replace("EXIT", ex)
+                for wn, wrap in WRAP.items():
+                    core = loop.replace("BODY", body)
+                    src = ("var r; try { r = " + ("0; " + wrap % core if wn in ("program", "outer-try", "outer-catch") else wrap % core + ";") +
+                           " __out('done'); } catch (e) { __out(['escaped', e && e.name ? e.name : e]); } for (var y of [7, 8]) { __out(['y', y]); } typeof r")
+                    out.append(("H|loop=%s|pending=%s|exit=%s|in=%s" % (ln, pn, ex.rstrip(";"), wn), {"src": src, "tl": 50}))
+    return out
+
+
+def f_spaces():
+    return [Space("c07_nested", RUN, nested_cases, oracle="table", batch=200,
+                  rule="%d x %d ordered pairs of built-ins that call back into script (outer runs its callback twice) x {throw a value, "
+                       "throw an Error, runtime TypeError, nothing} x handler {between the two built-ins, outside both, inside the inner "
+                       "callback, between with finally, between and re-thrown}; the log shows which handler ran, that the outer built-in went "
+                       "on with its next element, and three probes afterwards; expected = V8" % (len(NEST), len(NEST)),
+                  bound="%d^2 x 4 x 5" % len(NEST)),
+            Space("c07_finally_exit", RUN, finally_exit_cases, oracle="table", batch=200,
+                  rule="break / continue written inside a finally block while an exception (thrown, runtime, from a built-in, in a catch, "
+                       "through nested finally) or nothing is pending, inside %d kinds of loop / switch / labelled block (for-of and for-in "
+                       "keep an iterator on the stack), at program level, in a function, in a callback, inside outer try/finally and "
+                       "try/catch/finally; the log shows every iteration, every finally block and a for-of loop run afterwards; expected "
+                       "= V8" % len(LOOPS_H), bound="%d x 7 x 2 x 5" % len(LOOPS_H)),
+            Space("c07_depth", RUN, depth_cases, oracle="table", batch=4, watchdog=120,
+                  rule="unbounded recursion through %d kinds of built-in, stopped by the engine's depth limit, RangeError caught at built-in "
+                       "nesting level 0 / 1 / 2, once or three times; afterwards three probes check that exceptions are still routed to "
+                       "the right handler; expected = V8 (the log does not depend on the depth at which the limit is hit)" % len(DEPTH_NATIVES),
+                  bound="%d x 3 x 2" % len(DEPTH_NATIVES))]
+
+
 def spaces(tier, seed, all_strata=False):
-    core = a_core_spaces() + b_core_spaces() + [shift_space(), d_space(), e_space()]
+    core = a_core_spaces() + b_core_spaces() + [shift_space(), d_space(), e_space()] + f_spaces()
     native = a_native_strata()
     bst = b_strata()
     if tier == "thorough" or all_strata:
